@@ -59,7 +59,11 @@ func NewMultiHandler(create StartFunc, sessionID []byte) (*MultiHandler, error) 
 		messages:        newQueue(r.OtherPartyIDs(), r.FinalRoundNumber()),
 		broadcast:       newQueue(r.OtherPartyIDs(), r.FinalRoundNumber()),
 		broadcastHashes: map[round.Number][]byte{},
-		out:             make(chan *Message, 2*r.N()),
+		// The buffer holds every message this party can emit during the whole protocol
+		// (at most one broadcast and N-1 point-to-point messages per round, plus an abort notice),
+		// so that neither the constructor nor Accept can ever block on a channel nobody drains yet:
+		// with a single participant all rounds run inside the constructor.
+		out: make(chan *Message, (int(r.FinalRoundNumber())+1)*(r.N()+1)),
 	}
 	h.finalize()
 	return h, nil
